@@ -24,6 +24,7 @@ const lanes = 4
 func init() {
 	core.Register(&core.Check{
 		ID:        "C08",
+		Also:      []string{"C08A"}, // the signature lane + wrapper shape sweep under AddressSanitizer (asanlane.go)
 		Level:     "exploration",
 		Technique: "mutation of honestly signed transactions on the wire against a real application (CheckBasic, block processing), with the generator's knowledge of the signing key as oracle; differential secp256k1 recovery against a pure-Go reference; ownership scan of generated confidential outputs with owner and non-owner wallets",
 		Rule: "case index mod 4 selects the lane. account: honest tx/txt/cut/mst, every single-field wire rewrite + hostile (r,s,v) forms + multi-field rewrites + signatures made for another or no chain parameter; oracle: no non-identity mutant is accepted by CheckBasic while charging the signer. " +
